@@ -300,6 +300,25 @@ def run(ctx: vlib.Ctx, n_schemas: int, per_schema: int):
                         not (c["input"][key] is None and f.default is None):
                     problems.append(f"field {f.name}: Literal accepted {c['input'][key]!r}, none of {f.ty.extra!r} "
                                     f"(instance holds {getattr(r, f.name, None)!r})")
+        # the union's own InvalidFieldValue (the __context__ of the field's) must carry the offending object itself:
+        # the field value or one of the items inside it
+        def occurs(obj, cont, depth=0):
+            if obj is cont:
+                return True
+            if depth > 6:
+                return False
+            if isinstance(cont, dict):
+                return any(occurs(obj, x, depth + 1) for x in cont.values()) or any(obj is k for k in cont)
+            if isinstance(cont, (list, tuple)):
+                return any(occurs(obj, x, depth + 1) for x in cont)
+            return isinstance(cont, str) and isinstance(obj, str) and len(obj) == 1 and obj in cont
+        if c["kind"] == "class" and c["nailed"] and exc is not None and type(exc).__name__ == "InvalidFieldValue":
+            inner = exc.__context__
+            fld = next((f for f in c["spec"].fields if f.name == exc.field_name), None)
+            if fld is not None and has_x(fld.ty) and type(inner).__name__ == "InvalidFieldValue" and \
+                    inner.field_name == exc.field_name and not occurs(inner.field_value, exc.field_value):
+                problems.append(f"field {fld.name}: the union's InvalidFieldValue carries {inner.field_value!r}, which is not "
+                                f"the offending value nor an item of {exc.field_value!r}")
         # the exception whitelist is about dataclass roots; a container / union codec root raises what its
         # unpacker raises (compared with the model, not judged here)
         allowed = ("ValueError", "MissingField", "InvalidFieldValue", "ExtraKeysError")
@@ -312,7 +331,7 @@ def run(ctx: vlib.Ctx, n_schemas: int, per_schema: int):
                       "type_expr": gen.py_ann(c["t"]), "input_expr": gen.py_src(c["input"]), "observed": what[:300],
                       "outcome": (type(exc).__name__ if exc is not None else gen.py_src(r))[:400],
                       "expected": "documented exception / unmodified input"},
-                     {"kind": "xtyped-" + ("input-modified" if "modified" in what else ("literal" if "Literal" in what else "undocumented")),
+                     {"kind": "xtyped-" + ("input-modified" if "modified" in what else ("literal" if "Literal" in what else ("union-culprit" if "union's InvalidFieldValue" in what else "undocumented"))),
                       "root": c["kind"]})
     br = vlib.coq_make(["theories/ErrsX.vo", "theories/CaseLib.vo", "theories/Wire.vo"])
     if not br.ok:
